@@ -103,3 +103,15 @@ Example C16_example_mixed :
   /\ map fst (breakpoints (sort_events (events [0; 2; 0; 1] [2; 4; 2; 9]))) = [0; 1; 2; 4; 9]
   /\ regions_at [1] [] [0] = Panic.
 Proof. vm_compute. repeat split. Qed.
+
+(* ---- tie to the Go source by translation (gen/SrcGen.v, regenerated on every run) ---- *)
+From Bio.gen Require SrcGen.
+From Bio.Proofs Require SrcGenProofs.
+
+(* event_less of the model is, for all events, the function translated from
+   regions/regions.go (eventLess). *)
+Theorem C16_event_less_is_source : forall a b,
+  Bio.Model.Regions.event_less a b
+  = SrcGen.src_regions_eventLess (SrcGenProofs.src_event_of a) (SrcGenProofs.src_event_of b).
+Proof. exact SrcGenProofs.event_less_is_source. Qed.
+Print Assumptions C16_event_less_is_source.
